@@ -11,10 +11,10 @@ def geoClipTraced : Bool := true
 def geoClipStart (start stop size : Int) : Int := (max (0 : Int) start)
 def geoClipStop (start stop size : Int) : Int := (min size stop)
 def extTraced : Bool := true
-def extStart (fwd : Bool) (start stop len size : Int) : Int := (if fwd = true then start else (max (stop - len) (0 : Int)))
+def extStart (fwd : Bool) (start stop len size : Int) : Int := (if fwd = true then start else (stop - (min len stop)))
 def extStop (fwd : Bool) (start stop len size : Int) : Int := (if fwd = true then (min (start + len) size) else stop)
 def geoExtTraced : Bool := true
-def geoExtStart (fwd : Bool) (start stop len size : Int) : Int := (if fwd = true then start else (max (stop - len) (0 : Int)))
+def geoExtStart (fwd : Bool) (start stop len size : Int) : Int := (if fwd = true then start else (stop - (min len stop)))
 def geoExtStop (fwd : Bool) (start stop len size : Int) : Int := (if fwd = true then (min (start + len) size) else stop)
 
 end Gen.C08
